@@ -70,7 +70,7 @@ pub fn print_value_cfg() -> gen::ValueCfg {
 pub fn build(v: &RefValue, route: bool) -> Value {
 	if route {
 		// one of five alternative construction routes, chosen by the value itself (deterministic)
-		let r = crate::framework::hash64(&crate::refprint::compact(v)) % 6;
+		let r = crate::framework::hash64(&crate::refprint::compact(v)) % 8;
 		v.to_value_route(1 + r as u8)
 	} else {
 		v.to_value()
